@@ -11,6 +11,11 @@ import Poulpy.Lemmas.CnvModel
 import Poulpy.Lemmas.CnvAssign
 import Poulpy.Lemmas.ValBridge
 import Poulpy.Lemmas.AccAdd
+import Poulpy.Lemmas.EpTotal
+import Poulpy.Lemmas.HeadRoom
+import Poulpy.Lemmas.TensorCols
+import Poulpy.Lemmas.TensorValue
+import Poulpy.Lemmas.MulCompose
 import Poulpy.Props.C02
 import Poulpy.Props.C07
 
@@ -34,7 +39,7 @@ What is not proved is listed at the end.
 -/
 
 namespace C05
-open Hal Core
+open Hal Core KsDec
 
 /-- the split of `cnv_offset` is exact: skipping `hi` limbs of the convolution (which scales by
 `2^{(hi+1)·b}` because limb `k` of a product has weight `2^{-(k+2)·b}`) and shifting by `lo` bits
@@ -218,7 +223,7 @@ example : w64 (w64 (w64 (7 - 3) - 4) + 9) = w64 (7 + w64 (w64 (w64 (-3) - 4) + 9
 property's quantifier): `glwe_tensor_square_apply(a)` and `glwe_tensor_apply(a, a)` return the same tensor, bit
 for bit, for every operand, precision, offset, radix pair and accumulator type.  (Two different loop orders and
 `(p − dᵢ) − dⱼ` vs `(−dᵢ − dⱼ) + p` in wrapping arithmetic.) -/
-theorem tensorSquare_eq_tensorApply (big : Bool) (n rb rs off b : Nat) (a : List Col) (k : Nat) (res0 : List Col)
+theorem tensorSquare_eq_tensorApply_ranks12 (big : Bool) (n rb rs off b : Nat) (a : List Col) (k : Nat) (res0 : List Col)
     (ha : a.length = 2 ∨ a.length = 3) (hr : res0.length = a.length * (a.length + 1) / 2) :
     tensorSquare big n rb rs off b a k res0 = tensorApply false big n rb rs off b a k a k res0 := by
   unfold tensorSquare tensorApply
@@ -242,7 +247,7 @@ example : tensorSquare false 2 4 2 4 4 [[[1, -2], [3, 0]], [[2, 1], [-1, 1]]] 8 
 /-- **the accumulate variant adds exactly the product** (ranks 1 and 2): `glwe_tensor_apply_add_assign` leaves in
 every column the previous content plus (wrapping, limb-wise — `vec_znx_add_assign`) the column that
 `glwe_tensor_apply` computes; `zs` is whatever the non-accumulating call finds in its output (it is overwritten). -/
-theorem tensorApply_acc_eq_add (big : Bool) (n rb rs off b : Nat) (a : List Col) (ka : Nat) (x : List Col) (kx : Nat)
+theorem tensorApply_acc_eq_add_ranks12 (big : Bool) (n rb rs off b : Nat) (a : List Col) (ka : Nat) (x : List Col) (kx : Nat)
     (res0 zs : List Col) (ha : a.length = 2 ∨ a.length = 3)
     (hr : res0.length = a.length * (a.length + 1) / 2) (hz : zs.length = a.length * (a.length + 1) / 2)
     (hshape : ∀ r ∈ res0, ColShape n rs r) :
@@ -607,12 +612,12 @@ example (β : Ks.R 1) :
 
 /-! ## Composed statements: result phase = product at the documented scale (modulo the C08 kernel relation) -/
 
-/-- **`mul_const_decrypts`** — `glwe_mul_const`, one statement in one value domain (`R N = ℤ[X]/(X^N+1)`, `β = 2^{base2k}`): `A·phase(result)`
+/-- **`mul_const_decrypts_modulo_norm`** — `glwe_mul_const`, one statement in one value domain (`R N = ℤ[X]/(X^N+1)`, `β = 2^{base2k}`): `A·phase(result)`
 plus `B·β^F·`(skipped top limbs, a multiple of the torus modulus) equals `B·β·val(phase a)·val(b)` plus the explicit normalisation error
 `E₀ + Σ s_i E_{i+1}`, where `(A, B, E)` is the value relation of the C08 kernel on each accumulator column (`hK`; for equal radices
 `C08.normalize_inter_value` discharges it with `A = 2^{…}`, `B = 2^{lo}`-type factors).  Composition of `mul_const_phase_value` and
 `mul_const_result_phase_modulo_norm` through `Lemmas/ValBridge.lean` (`ι ∘ valP ∘ phase` = weighted per-limb phases). -/
-theorem mul_const_decrypts {N : Nat} (hN : 0 < N) (big128 : Bool) (rb rs off b sa : Nat) (a0 : Col) (as : List Col) (cst : List Int)
+theorem mul_const_decrypts_modulo_norm {N : Nat} (hN : 0 < N) (big128 : Bool) (rb rs off b sa : Nat) (a0 : Col) (as : List Col) (cst : List Int)
     (res : List Col) (h : mulConst false big128 N rb rs off b (a0 :: as) cst = some res)
     (h0 : a0.length = sa) (hall : ∀ x ∈ as, x.length = sa) (hx0 : ∀ l ∈ a0, l.length = N) (hxs : ∀ x ∈ as, ∀ l ∈ x, l.length = N)
     (hsa : 1 ≤ sa) (hsb : 1 ≤ cst.length) (hhi : (cnvOffsetSplit b off).1 ≤ sa + cst.length - 1)
@@ -669,7 +674,7 @@ example (s : List Poly) :
       = ((1 : Int) : Ks.R 1) * ((2 : Ks.R 1) ^ 4 * (colVal 1 ((2 : Ks.R 1) ^ 4) [[3], [0]]
           + ∑ i ∈ Finset.range (min s.length [([[1], [0]] : Col)].length), Ks.ι 1 (s.getD i []) * colVal 1 ((2 : Ks.R 1) ^ 4) (([[[1], [0]]] : List Col).getD i [])) * constVal 1 ((2 : Ks.R 1) ^ 4) [2])
         + Ks.ι 1 (C02L.errTo (min [([[1], [0]] : Col)].length s.length) s (fun _ => [0])) :=
-  mul_const_decrypts (N := 1) (by decide) false 4 2 4 4 2 [[3], [0]] [[[1], [0]]] [2] [[[6], [0]], [[2], [0]]]
+  mul_const_decrypts_modulo_norm (N := 1) (by decide) false 4 2 4 4 2 [[3], [0]] [[[1], [0]]] [2] [[[6], [0]], [[2], [0]]]
     (by decide) rfl (by decide) (by decide) (by decide) (by decide) (by decide) (by decide) (by decide) 16 1 (fun _ => [0]) (fun _ => rfl)
     (by
       intro i hi C hC
@@ -681,10 +686,10 @@ example (s : List Poly) :
       · have e : bigNormalizeOff false 1 4 2 (cnvOffsetSplit 4 4).2 (((([[3], [0]] : Col) :: [[[1], [0]]]).map (fun x => Core.cnvByConstCol 1
             (2 + [(2 : Int)].length - (cnvOffsetSplit 4 4).1) (cnvOffsetSplit 4 4).1 x [2])).getD 1 []) 4 = some [[2], [0]] := by decide
         have hC' := e.symm.trans hC; injection hC' with hC'; subst hC'; decide) s
-/-- **`mul_const_assign_decrypts`** — `glwe_mul_const_assign` (accumulator of `res.size = rs` limbs), composed: the result phase, rescaled by
+/-- **`mul_const_assign_decrypts_modulo_norm`** — `glwe_mul_const_assign` (accumulator of `res.size = rs` limbs), composed: the result phase, rescaled by
 `β^{F−rs}`, plus `B·`(the explicit dropped limbs `rs ≤ k < F` of the full convolution + `β^F·`top limbs) is `B·β·val(phase a)·val(b)` plus the rescaled
 normalisation error. -/
-theorem mul_const_assign_decrypts {N : Nat} (hN : 0 < N) (big128 : Bool) (rb rs off b sa : Nat) (a0 : Col) (as : List Col) (cst : List Int)
+theorem mul_const_assign_decrypts_modulo_norm {N : Nat} (hN : 0 < N) (big128 : Bool) (rb rs off b sa : Nat) (a0 : Col) (as : List Col) (cst : List Int)
     (res : List Col) (h : mulConst true big128 N rb rs off b (a0 :: as) cst = some res)
     (h0 : a0.length = sa) (hall : ∀ x ∈ as, x.length = sa) (hx0 : ∀ l ∈ a0, l.length = N) (hxs : ∀ x ∈ as, ∀ l ∈ x, l.length = N)
     (hsa : 1 ≤ sa) (hsb : 1 ≤ cst.length) (hhi : (cnvOffsetSplit b off).1 ≤ sa + cst.length - 1)
@@ -744,7 +749,7 @@ example (s : List Poly) :
       = ((1 : Int) : Ks.R 1) * ((2 : Ks.R 1) ^ 4 * (colVal 1 ((2 : Ks.R 1) ^ 4) [[3], [0]]
           + ∑ i ∈ Finset.range (min s.length [([[1], [0]] : Col)].length), Ks.ι 1 (s.getD i []) * colVal 1 ((2 : Ks.R 1) ^ 4) (([[[1], [0]]] : List Col).getD i [])) * constVal 1 ((2 : Ks.R 1) ^ 4) [2])
         + ((2 : Ks.R 1) ^ 4) ^ (2 + [(2 : Int)].length - (cnvOffsetSplit 4 4).1 - 2) * Ks.ι 1 (C02L.errTo (min [([[1], [0]] : Col)].length s.length) s (fun _ => [0])) :=
-  mul_const_assign_decrypts (N := 1) (by decide) false 4 2 4 4 2 [[3], [0]] [[[1], [0]]] [2] [[[6], [0]], [[2], [0]]]
+  mul_const_assign_decrypts_modulo_norm (N := 1) (by decide) false 4 2 4 4 2 [[3], [0]] [[[1], [0]]] [2] [[[6], [0]], [[2], [0]]]
     (by decide) rfl (by decide) (by decide) (by decide) (by decide) (by decide) (by decide) (by decide) (by decide) 1 1 (fun _ => [0]) (fun _ => rfl)
     (by
       intro i hi C hC
@@ -756,9 +761,9 @@ example (s : List Poly) :
       · have e : bigNormalizeOff false 1 4 2 (cnvOffsetSplit 4 4).2 (((([[3], [0]] : Col) :: [[[1], [0]]]).map (fun x => Core.cnvByConstCol 1
             2 (cnvOffsetSplit 4 4).1 x [2])).getD 1 []) 4 = some [[2], [0]] := by decide
         have hC' := e.symm.trans hC; injection hC' with hC'; subst hC'; decide) s
-/-- **`mul_plain_decrypts`** — `glwe_mul_plain`, same composed statement: the operands entering the value are the masked ones
+/-- **`mul_plain_decrypts_modulo_norm`** — `glwe_mul_plain`, same composed statement: the operands entering the value are the masked ones
 (`cnv_prepare_left/right`, `mask_keeps_top_bits`). -/
-theorem mul_plain_decrypts {N : Nat} (hN : 0 < N) (big128 : Bool) (rb rs off b sa : Nat) (a0 : Col) (as : List Col) (aK : Nat) (pt : Col) (bK : Nat)
+theorem mul_plain_decrypts_modulo_norm {N : Nat} (hN : 0 < N) (big128 : Bool) (rb rs off b sa : Nat) (a0 : Col) (as : List Col) (aK : Nat) (pt : Col) (bK : Nat)
     (res : List Col) (h : mulPlain big128 N rb rs off b (a0 :: as) aK pt bK = some res)
     (h0 : a0.length = sa) (hall : ∀ x ∈ as, x.length = sa) (hx0 : ∀ l ∈ a0, l.length = N) (hxs : ∀ x ∈ as, ∀ l ∈ x, l.length = N)
     (hpt : ∀ l ∈ pt, l.length = N) (hsa : 1 ≤ sa) (hsb : 1 ≤ pt.length) (hhi : (cnvOffsetSplit b off).1 ≤ sa + pt.length - 1)
@@ -845,7 +850,7 @@ example (s : List Poly) :
               colVal 1 ((2 : Ks.R 1) ^ 4) ((prepAll 1 (msbMaskBottomLimb 4 8) [[[1], [0]]]).getD i []))
             * colVal 1 ((2 : Ks.R 1) ^ 4) (Hal.cnvPrepareCol 1 ([[2]] : Col).length (msbMaskBottomLimb 4 4) [[2]]))
         + Ks.ι 1 (C02L.errTo (min [([[1], [0]] : Col)].length s.length) s (fun _ => [0])) :=
-  mul_plain_decrypts (N := 1) (by decide) false 4 2 4 4 2 [[3], [0]] [[[1], [0]]] 8 [[2]] 4 [[[6], [0]], [[2], [0]]]
+  mul_plain_decrypts_modulo_norm (N := 1) (by decide) false 4 2 4 4 2 [[3], [0]] [[[1], [0]]] 8 [[2]] 4 [[[6], [0]], [[2], [0]]]
     (by decide) rfl (by decide) (by decide) (by decide) (by decide) (by decide) (by decide) (by decide) (by decide) 16 1 (fun _ => [0]) (fun _ => rfl)
     (by
       intro i hi C hC
@@ -862,17 +867,12 @@ example (s : List Poly) :
 instance (c : Col) : Decidable (C02L.ColSmall c) := by unfold C02L.ColSmall C02L.PolySmall; infer_instance
 instance (N : Nat) (c : Col) : Decidable (C02L.LimbsN N c) := by unfold C02L.LimbsN; infer_instance
 
-/-- the tensor's pair columns as handed to the gadget product when the tensor is in the key radix -/
-def relinInput (n : Nat) (a : List Col) (g : GGLWE) : List Col :=
-  (List.range g.colsIn).map (fun i =>
-    Hal.dftApplyCol n 1 0 (((a.getD 0 []).length * g.base2k + g.base2k - 1) / g.base2k) (a.getD (g.colsOut + i) []))
-
-/-- **`relin_decrypts`** — `glwe_tensor_relinearize` with the tensor in the key radix, i64 accumulator (FFT64), every key digit size: one
+/-- **`relin_decrypts_modulo_norm`** — `glwe_tensor_relinearize` with the tensor in the key radix, i64 accumulator (FFT64), every key digit size: one
 composed statement.  `A·phase(res) = B·(Σ_p σ_p·usedVal(a_p) + Σ_p(Σ_r digit·E − dropped − β^S·head) + phase(first columns of the tensor at S limbs))
 + (E₀ + Σ s_i E_{i+1})`: the pair columns are re-encrypted under `s` by the gadget product (`relin_product_value`), the first `rank+1` columns are
 added exactly (`Core.bigAddSmallAssign_exact`, 2^62 head-room), and the final normalisation contributes the kernel relation `(A, B, En)`
 (`Core.acc_norm_compose`, `Lemmas/AccAdd.lean`).  With `σ_p = s_i·s_j` this is `tensor_phase` evaluated under `s`. -/
-theorem relin_decrypts {N : Nat} (rb rs : Nat) (a : List Col) (g : GGLWE) (res0 res : List Col) (sk : List Poly)
+theorem relin_decrypts_modulo_norm {N : Nat} (rb rs : Nat) (a : List Col) (g : GGLWE) (res0 res : List Col) (sk : List Poly)
     (hok : relinearize false N rb rs a g.base2k g g.size res0 = some res)
     (A B : Int) (En : Nat → Poly) (hEn : ∀ i, (En i).length = N)
     (hPwf : ∀ c ∈ Core.gglweProductDft (relinInput N a g) g g.size res0, C02L.ColWF N g.size c)
@@ -941,7 +941,7 @@ example (σ : ℕ → Ks.R 1) :
           + Ks.ι 1 (C02L.valP exTsk.base2k 1 (Core.Ops.phase [[1]] (Ks.mkCt exTsk.base2k 1
               ((List.range exTsk.colsOut).map (fun j => C02L.fit 1 exTsk.size (([[[1], [0]], [[0], [1]], [[2], [1]]] : List Col).getD j [])))))))
         + Ks.ι 1 (C02L.errTo (min (exTsk.colsOut - 1) ([[1]] : List Poly).length) [[1]] (fun _ => [0])) :=
-  relin_decrypts (N := 1) 4 3 ([[[1], [0]], [[0], [1]], [[2], [1]]] : List Col) exTsk (zeroCols 1 2 3) [[[2], [0], [0]], [[2], [2], [0]]] [[1]]
+  relin_decrypts_modulo_norm (N := 1) 4 3 ([[[1], [0]], [[0], [1]], [[2], [1]]] : List Col) exTsk (zeroCols 1 2 3) [[[2], [0], [0]], [[2], [2], [0]]] [[1]]
     (by decide +kernel) 1 1 (fun _ => [0]) (fun _ => rfl)
     (by decide +kernel) (by decide +kernel) (by decide) (by decide) (by decide)
     (by
@@ -958,10 +958,716 @@ example (σ : ℕ → Ks.R 1) :
                     - 1 * σ i * ((2 : Ks.R 1) ^ exTsk.base2k) ^ (exTsk.size - (r + 1) * exTsk.dsize))
     (by decide) (by decide) rfl (by decide) (by decide) (Ks.entry_length exTsk.toPMat 1 rfl (by decide +kernel)) (by decide)
     (by intro i _ r _; exact (add_sub_cancel _ _).symm)
-/-
-NOT PROVED (checked by correspondence on every generated case, see docs/C05.md):
-* `tensorSquare_eq_tensorApply` and `tensorApply_acc_eq_add` for ranks ≥ 3 (the property's quantifier is rank 1..2;
-  the loops are unfolded per rank, the column arithmetic `col_square` / `col_acc` is rank independent);
--/
+/-! ## Unconditional composed statements: every kernel hypothesis discharged by C08's total value theorems -/
+
+/-- **`mul_const_decrypts`** — `glwe_mul_const`, END TO END, ANY radix pair `1..62`, every `cnv_offset` (bit offset `lo` of either sign), both
+accumulator widths; the only analytic hypothesis is the accumulator head-room (`mul_const_headroom` derives it from digit bounds).  The call
+returns a well-formed ciphertext with digits `≤ 2^rb − 1` and
+`2^(b·F+(−lo)⁺)·phase(res) + 2^(rb·rs)·2^(lo⁺)·β^F·top = 2^(rb·rs)·2^(lo⁺)·β·val(phase a)·val(cst) + En + 2^(…)·Q`,
+`‖En‖_∞ ≤ (1 + Σ‖s_i‖₁)·normTolOff` (one unit of the result's last limb per column, `0` when `b·F − lo ≤ rb·rs`); with
+`cnvOffsetSplit_total` the scale is `2^cnv_offset`. -/
+theorem mul_const_decrypts {N : Nat} (hN : 0 < N) (big128 : Bool) (rb rs off b sa : Nat) (a0 : Col) (as : List Col) (cst : List Int) (H : Int)
+    (h0 : a0.length = sa) (hall : ∀ x ∈ as, x.length = sa) (hx0 : ∀ l ∈ a0, l.length = N) (hxs : ∀ x ∈ as, ∀ l ∈ x, l.length = N)
+    (hsa : 1 ≤ sa) (hsb : 1 ≤ cst.length) (hhi : (cnvOffsetSplit b off).1 ≤ sa + cst.length - 1)
+    (hrb1 : 1 ≤ rb) (hrb : rb ≤ 62) (hb1 : 1 ≤ b) (hb : b ≤ 62) (hH0 : 0 ≤ H) (hH : H + 8 ≤ 2 ^ (bitsOf big128 - 2))
+    (hacc : ∀ x ∈ a0 :: as, ∀ l ∈ cnvByConstCol N (sa + cst.length - (cnvOffsetSplit b off).1) (cnvOffsetSplit b off).1 x cst, ∀ v ∈ l, |v| ≤ H)
+    (s : List Poly) :
+    ∃ res, mulConst false big128 N rb rs off b (a0 :: as) cst = some res ∧ C02L.GWF N (Ks.mkCt rb N res) ∧
+      (∀ c ∈ res, ∀ l ∈ c, ∀ x ∈ l, |x| ≤ 2 ^ rb - 1) ∧
+      ∃ En Q : Poly, En.length = N ∧ Q.length = N ∧
+        normInf En ≤ (1 + C02L.snorm (min as.length s.length) s) *
+          normTolOff (rb * rs) (b * (sa + cst.length - (cnvOffsetSplit b off).1)) (cnvOffsetSplit b off).2 ∧
+        (2 : Ks.R N) ^ (b * (sa + cst.length - (cnvOffsetSplit b off).1) + (-(cnvOffsetSplit b off).2).toNat)
+            * Ks.ι N (C02L.valP rb N (Core.Ops.phase s (Ks.mkCt rb N res)))
+          + (2 : Ks.R N) ^ (rb * rs) * (2 : Ks.R N) ^ (cnvOffsetSplit b off).2.toNat *
+              (((2 : Ks.R N) ^ b) ^ (sa + cst.length - (cnvOffsetSplit b off).1) * (constTop N ((2 : Ks.R N) ^ b) a0 cst (cnvOffsetSplit b off).1
+                + ∑ i ∈ Finset.range (min s.length as.length), Ks.ι N (s.getD i []) * constTop N ((2 : Ks.R N) ^ b) (as.getD i []) cst (cnvOffsetSplit b off).1))
+          = (2 : Ks.R N) ^ (rb * rs) * (2 : Ks.R N) ^ (cnvOffsetSplit b off).2.toNat *
+              ((2 : Ks.R N) ^ b * (colVal N ((2 : Ks.R N) ^ b) a0
+                + ∑ i ∈ Finset.range (min s.length as.length), Ks.ι N (s.getD i []) * colVal N ((2 : Ks.R N) ^ b) (as.getD i [])) * constVal N ((2 : Ks.R N) ^ b) cst)
+            + Ks.ι N En
+            + (2 : Ks.R N) ^ (rb * rs + (b * (sa + cst.length - (cnvOffsetSplit b off).1) + (-(cnvOffsetSplit b off).2).toNat)) * Ks.ι N Q := by
+  subst h0
+  have hwf : ∀ c ∈ (a0 :: as).map (fun x => cnvByConstCol N (a0.length + cst.length - (cnvOffsetSplit b off).1) (cnvOffsetSplit b off).1 x cst),
+      C02L.ColWF N (a0.length + cst.length - (cnvOffsetSplit b off).1) c := by
+    intro c hc
+    obtain ⟨x, hx, rfl⟩ := List.mem_map.mp hc
+    apply cnvByConstCol_wf
+    rcases List.mem_cons.mp hx with e | e
+    · rw [e]; exact hx0
+    · exact hxs x e
+  have hne : (a0 :: as).map (fun x => cnvByConstCol N (a0.length + cst.length - (cnvOffsetSplit b off).1) (cnvOffsetSplit b off).1 x cst) ≠ [] := by simp
+  have hbd : ∀ c ∈ (a0 :: as).map (fun x => cnvByConstCol N (a0.length + cst.length - (cnvOffsetSplit b off).1) (cnvOffsetSplit b off).1 x cst),
+      ∀ l ∈ c, ∀ v ∈ l, |v| ≤ H := by
+    intro c hc
+    obtain ⟨x, hx, rfl⟩ := List.mem_map.mp hc
+    exact hacc x hx
+  obtain ⟨cs, h1, h2, h3, h4, h5⟩ := norm_total_rows big128 N rb rs b (a0.length + cst.length - (cnvOffsetSplit b off).1) (cnvOffsetSplit b off).2 H _
+    hN hrb1 hrb hb1 hb hH0 hH hne hwf hbd
+  have hcsne : cs ≠ [] := by intro h; rw [h] at h2; simp at h2
+  refine ⟨cs, ?_, (gwf_mk (N := N) rb rs cs hcsne h3).1, h4, ?_⟩
+  · have : mulConst false big128 N rb rs off b (a0 :: as) cst = (a0 :: as).mapM (fun x =>
+        bigNormalizeOff big128 N rb rs (cnvOffsetSplit b off).2 (cnvByConstCol N (a0.length + cst.length - (cnvOffsetSplit b off).1) (cnvOffsetSplit b off).1 x cst) b) := rfl
+    rw [this, mapM_comp (fun x => cnvByConstCol N (a0.length + cst.length - (cnvOffsetSplit b off).1) (cnvOffsetSplit b off).1 x cst)
+      (fun c => bigNormalizeOff big128 N rb rs (cnvOffsetSplit b off).2 c b)]
+    exact h1
+  · obtain ⟨En, Q, hE, hQ, hnm, he⟩ := h5 s
+    have e1 : ((a0 :: as).map (fun x => cnvByConstCol N (a0.length + cst.length - (cnvOffsetSplit b off).1) (cnvOffsetSplit b off).1 x cst)).length - 1 = as.length := by simp
+    rw [e1] at hnm
+    refine ⟨En, Q, hE, hQ, hnm, ?_⟩
+    have h3' := mul_const_phase_value N hN s a0 as cst (cnvOffsetSplit b off).1 a0.length ((2 : Ks.R N) ^ b) rfl hall hx0 hxs hsa hsb hhi
+    rw [he, ← h3']
+    ring
+
+example (s : List Poly) : ∃ res, mulConst false false 1 4 2 4 4 ((([[3], [0]] : Col)) :: [[[1], [0]]]) [2] = some res ∧ C02L.GWF 1 (Ks.mkCt 4 1 res) := by
+  obtain ⟨res, h1, h2, _⟩ := mul_const_decrypts (N := 1) (by decide) false 4 2 4 4 2 [[3], [0]] [[[1], [0]]] [2] (2 ^ 61)
+    rfl (by decide) (by decide) (by decide) (by decide) (by decide) (by decide) (by decide) (by decide) (by decide) (by decide) (by decide) (by decide)
+    (by decide) s
+  exact ⟨res, h1, h2⟩
+
+/-- **`mul_const_assign_decrypts`** — `glwe_mul_const_assign` (accumulator of `rs = res.size` limbs), END TO END, same generality: the result
+phase rescaled by `β^{F−rs}`, plus the explicit dropped limbs and the skipped top limbs, is the product plus the rescaled rounding `En`. -/
+theorem mul_const_assign_decrypts {N : Nat} (hN : 0 < N) (big128 : Bool) (rb rs off b sa : Nat) (a0 : Col) (as : List Col) (cst : List Int) (H : Int)
+    (h0 : a0.length = sa) (hall : ∀ x ∈ as, x.length = sa) (hx0 : ∀ l ∈ a0, l.length = N) (hxs : ∀ x ∈ as, ∀ l ∈ x, l.length = N)
+    (hsa : 1 ≤ sa) (hsb : 1 ≤ cst.length) (hhi : (cnvOffsetSplit b off).1 ≤ sa + cst.length - 1)
+    (hR : rs ≤ sa + cst.length - (cnvOffsetSplit b off).1)
+    (hrb1 : 1 ≤ rb) (hrb : rb ≤ 62) (hb1 : 1 ≤ b) (hb : b ≤ 62) (hH0 : 0 ≤ H) (hH : H + 8 ≤ 2 ^ (bitsOf big128 - 2))
+    (hacc : ∀ x ∈ a0 :: as, ∀ l ∈ cnvByConstCol N rs (cnvOffsetSplit b off).1 x cst, ∀ v ∈ l, |v| ≤ H)
+    (s : List Poly) :
+    ∃ res, mulConst true big128 N rb rs off b (a0 :: as) cst = some res ∧ C02L.GWF N (Ks.mkCt rb N res) ∧
+      (∀ c ∈ res, ∀ l ∈ c, ∀ x ∈ l, |x| ≤ 2 ^ rb - 1) ∧
+      ∃ En Q : Poly, En.length = N ∧ Q.length = N ∧
+        normInf En ≤ (1 + C02L.snorm (min as.length s.length) s) * normTolOff (rb * rs) (b * rs) (cnvOffsetSplit b off).2 ∧
+        ((2 : Ks.R N) ^ b) ^ (sa + cst.length - (cnvOffsetSplit b off).1 - rs) *
+            ((2 : Ks.R N) ^ (b * rs + (-(cnvOffsetSplit b off).2).toNat) * Ks.ι N (C02L.valP rb N (Core.Ops.phase s (Ks.mkCt rb N res))))
+          + (2 : Ks.R N) ^ (rb * rs) * (2 : Ks.R N) ^ (cnvOffsetSplit b off).2.toNat *
+              (∑ k ∈ Finset.Ico rs (sa + cst.length - (cnvOffsetSplit b off).1),
+                  Ks.ι N (Ks.phaseRow s (((a0 :: as).map (fun x => cnvByConstCol N (sa + cst.length - (cnvOffsetSplit b off).1) (cnvOffsetSplit b off).1 x cst)).map
+                    (fun col => limbOr0 N col k))) * ((2 : Ks.R N) ^ b) ^ (sa + cst.length - (cnvOffsetSplit b off).1 - 1 - k)
+                + ((2 : Ks.R N) ^ b) ^ (sa + cst.length - (cnvOffsetSplit b off).1) * (constTop N ((2 : Ks.R N) ^ b) a0 cst (cnvOffsetSplit b off).1
+                  + ∑ i ∈ Finset.range (min s.length as.length), Ks.ι N (s.getD i []) * constTop N ((2 : Ks.R N) ^ b) (as.getD i []) cst (cnvOffsetSplit b off).1))
+          = (2 : Ks.R N) ^ (rb * rs) * (2 : Ks.R N) ^ (cnvOffsetSplit b off).2.toNat *
+              ((2 : Ks.R N) ^ b * (colVal N ((2 : Ks.R N) ^ b) a0
+                + ∑ i ∈ Finset.range (min s.length as.length), Ks.ι N (s.getD i []) * colVal N ((2 : Ks.R N) ^ b) (as.getD i [])) * constVal N ((2 : Ks.R N) ^ b) cst)
+            + ((2 : Ks.R N) ^ b) ^ (sa + cst.length - (cnvOffsetSplit b off).1 - rs) *
+                (Ks.ι N En + (2 : Ks.R N) ^ (rb * rs + (b * rs + (-(cnvOffsetSplit b off).2).toNat)) * Ks.ι N Q) := by
+  have hwf : ∀ c ∈ (a0 :: as).map (fun x => cnvByConstCol N rs (cnvOffsetSplit b off).1 x cst), C02L.ColWF N rs c := by
+    intro c hc
+    obtain ⟨x, hx, rfl⟩ := List.mem_map.mp hc
+    apply cnvByConstCol_wf
+    rcases List.mem_cons.mp hx with e | e
+    · rw [e]; exact hx0
+    · exact hxs x e
+  have hne : (a0 :: as).map (fun x => cnvByConstCol N rs (cnvOffsetSplit b off).1 x cst) ≠ [] := by simp
+  have hbd : ∀ c ∈ (a0 :: as).map (fun x => cnvByConstCol N rs (cnvOffsetSplit b off).1 x cst), ∀ l ∈ c, ∀ v ∈ l, |v| ≤ H := by
+    intro c hc
+    obtain ⟨x, hx, rfl⟩ := List.mem_map.mp hc
+    exact hacc x hx
+  obtain ⟨cs, h1, h2, h3, h4, h5⟩ := norm_total_rows big128 N rb rs b rs (cnvOffsetSplit b off).2 H _
+    hN hrb1 hrb hb1 hb hH0 hH hne hwf hbd
+  have hcsne : cs ≠ [] := by intro h; rw [h] at h2; simp at h2
+  refine ⟨cs, ?_, (gwf_mk (N := N) rb rs cs hcsne h3).1, h4, ?_⟩
+  · have : mulConst true big128 N rb rs off b (a0 :: as) cst = (a0 :: as).mapM (fun x =>
+        bigNormalizeOff big128 N rb rs (cnvOffsetSplit b off).2 (cnvByConstCol N rs (cnvOffsetSplit b off).1 x cst) b) := rfl
+    rw [this, mapM_comp (fun x => cnvByConstCol N rs (cnvOffsetSplit b off).1 x cst)
+      (fun c => bigNormalizeOff big128 N rb rs (cnvOffsetSplit b off).2 c b)]
+    exact h1
+  · obtain ⟨En, Q, hE, hQ, hnm, he⟩ := h5 s
+    have e1 : ((a0 :: as).map (fun x => cnvByConstCol N rs (cnvOffsetSplit b off).1 x cst)).length - 1 = as.length := by simp
+    rw [e1] at hnm
+    refine ⟨En, Q, hE, hQ, hnm, ?_⟩
+    have h3' := mul_const_assign_phase_value N hN s a0 as cst (cnvOffsetSplit b off).1 sa rs ((2 : Ks.R N) ^ b) h0 hall hx0 hxs hsa hsb hhi hR
+    linear_combination (((2 : Ks.R N) ^ b) ^ (sa + cst.length - (cnvOffsetSplit b off).1 - rs)) * he
+      + ((2 : Ks.R N) ^ (rb * rs) * (2 : Ks.R N) ^ (cnvOffsetSplit b off).2.toNat) * h3'
+
+example (s : List Poly) : ∃ res, mulConst true true 1 4 2 4 4 ((([[3], [0]] : Col)) :: [[[1], [0]]]) [2] = some res ∧ C02L.GWF 1 (Ks.mkCt 4 1 res) := by
+  obtain ⟨res, h1, h2, _⟩ := mul_const_assign_decrypts (N := 1) (by decide) true 4 2 4 4 2 [[3], [0]] [[[1], [0]]] [2] (2 ^ 100)
+    rfl (by decide) (by decide) (by decide) (by decide) (by decide) (by decide) (by decide) (by decide) (by decide) (by decide) (by decide) (by decide)
+    (by decide) (by decide) s
+  exact ⟨res, h1, h2⟩
+
+/-- **`mul_plain_decrypts`** — `glwe_mul_plain`, END TO END, same generality; the operands entering the value are the masked ones
+(`cnv_prepare_left/right`). -/
+theorem mul_plain_decrypts {N : Nat} (hN : 0 < N) (big128 : Bool) (rb rs off b sa : Nat) (a0 : Col) (as : List Col) (aK : Nat) (pt : Col) (bK : Nat)
+    (H : Int)
+    (h0 : a0.length = sa) (hall : ∀ x ∈ as, x.length = sa) (hx0 : ∀ l ∈ a0, l.length = N) (hxs : ∀ x ∈ as, ∀ l ∈ x, l.length = N)
+    (hpt : ∀ l ∈ pt, l.length = N) (hsa : 1 ≤ sa) (hsb : 1 ≤ pt.length) (hhi : (cnvOffsetSplit b off).1 ≤ sa + pt.length - 1)
+    (hrb1 : 1 ≤ rb) (hrb : rb ≤ 62) (hb1 : 1 ≤ b) (hb : b ≤ 62) (hH0 : 0 ≤ H) (hH : H + 8 ≤ 2 ^ (bitsOf big128 - 2))
+    (hacc : ∀ x ∈ prepAll N (msbMaskBottomLimb b aK) (a0 :: as),
+      ∀ l ∈ Hal.cnvApplyCol N (sa + pt.length - (cnvOffsetSplit b off).1) (cnvOffsetSplit b off).1 x
+        (Hal.cnvPrepareCol N pt.length (msbMaskBottomLimb b bK) pt), ∀ v ∈ l, |v| ≤ H)
+    (s : List Poly) :
+    ∃ res, mulPlain big128 N rb rs off b (a0 :: as) aK pt bK = some res ∧ C02L.GWF N (Ks.mkCt rb N res) ∧
+      (∀ c ∈ res, ∀ l ∈ c, ∀ x ∈ l, |x| ≤ 2 ^ rb - 1) ∧
+      ∃ En Q : Poly, En.length = N ∧ Q.length = N ∧
+        normInf En ≤ (1 + C02L.snorm (min as.length s.length) s) *
+          normTolOff (rb * rs) (b * (sa + pt.length - (cnvOffsetSplit b off).1)) (cnvOffsetSplit b off).2 ∧
+        (2 : Ks.R N) ^ (b * (sa + pt.length - (cnvOffsetSplit b off).1) + (-(cnvOffsetSplit b off).2).toNat)
+            * Ks.ι N (C02L.valP rb N (Core.Ops.phase s (Ks.mkCt rb N res)))
+          + (2 : Ks.R N) ^ (rb * rs) * (2 : Ks.R N) ^ (cnvOffsetSplit b off).2.toNat *
+              (((2 : Ks.R N) ^ b) ^ (sa + pt.length - (cnvOffsetSplit b off).1) *
+                (plainTop N ((2 : Ks.R N) ^ b) (Hal.cnvPrepareCol N a0.length (msbMaskBottomLimb b aK) a0) (Hal.cnvPrepareCol N pt.length (msbMaskBottomLimb b bK) pt) (cnvOffsetSplit b off).1
+                + ∑ i ∈ Finset.range (min s.length as.length), Ks.ι N (s.getD i []) *
+                    plainTop N ((2 : Ks.R N) ^ b) ((prepAll N (msbMaskBottomLimb b aK) as).getD i []) (Hal.cnvPrepareCol N pt.length (msbMaskBottomLimb b bK) pt) (cnvOffsetSplit b off).1))
+          = (2 : Ks.R N) ^ (rb * rs) * (2 : Ks.R N) ^ (cnvOffsetSplit b off).2.toNat *
+              ((2 : Ks.R N) ^ b * (colVal N ((2 : Ks.R N) ^ b) (Hal.cnvPrepareCol N a0.length (msbMaskBottomLimb b aK) a0)
+                + ∑ i ∈ Finset.range (min s.length as.length), Ks.ι N (s.getD i []) * colVal N ((2 : Ks.R N) ^ b) ((prepAll N (msbMaskBottomLimb b aK) as).getD i []))
+                  * colVal N ((2 : Ks.R N) ^ b) (Hal.cnvPrepareCol N pt.length (msbMaskBottomLimb b bK) pt))
+            + Ks.ι N En
+            + (2 : Ks.R N) ^ (rb * rs + (b * (sa + pt.length - (cnvOffsetSplit b off).1) + (-(cnvOffsetSplit b off).2).toNat)) * Ks.ι N Q := by
+  subst h0
+  have hptP := cnvPrepareCol_limbs N pt.length (msbMaskBottomLimb b bK) pt hpt
+  have hwf : ∀ c ∈ (prepAll N (msbMaskBottomLimb b aK) (a0 :: as)).map (fun x => Hal.cnvApplyCol N (a0.length + pt.length - (cnvOffsetSplit b off).1) (cnvOffsetSplit b off).1 x
+      (Hal.cnvPrepareCol N pt.length (msbMaskBottomLimb b bK) pt)), C02L.ColWF N (a0.length + pt.length - (cnvOffsetSplit b off).1) c := by
+    intro c hc
+    obtain ⟨x, _, rfl⟩ := List.mem_map.mp hc
+    exact cnvApplyCol_wf N _ _ x _ hptP
+  have hne : (prepAll N (msbMaskBottomLimb b aK) (a0 :: as)).map (fun x => Hal.cnvApplyCol N (a0.length + pt.length - (cnvOffsetSplit b off).1) (cnvOffsetSplit b off).1 x
+      (Hal.cnvPrepareCol N pt.length (msbMaskBottomLimb b bK) pt)) ≠ [] := by simp [prepAll]
+  have hbd : ∀ c ∈ (prepAll N (msbMaskBottomLimb b aK) (a0 :: as)).map (fun x => Hal.cnvApplyCol N (a0.length + pt.length - (cnvOffsetSplit b off).1) (cnvOffsetSplit b off).1 x
+      (Hal.cnvPrepareCol N pt.length (msbMaskBottomLimb b bK) pt)), ∀ l ∈ c, ∀ v ∈ l, |v| ≤ H := by
+    intro c hc
+    obtain ⟨x, hx, rfl⟩ := List.mem_map.mp hc
+    exact hacc x hx
+  obtain ⟨cs, h1, h2, h3, h4, h5⟩ := norm_total_rows big128 N rb rs b (a0.length + pt.length - (cnvOffsetSplit b off).1) (cnvOffsetSplit b off).2 H _
+    hN hrb1 hrb hb1 hb hH0 hH hne hwf hbd
+  have hcsne : cs ≠ [] := by intro h; rw [h] at h2; simp [prepAll] at h2
+  refine ⟨cs, ?_, (gwf_mk (N := N) rb rs cs hcsne h3).1, h4, ?_⟩
+  · have : mulPlain big128 N rb rs off b (a0 :: as) aK pt bK = (prepAll N (msbMaskBottomLimb b aK) (a0 :: as)).mapM (fun x =>
+        bigNormalizeOff big128 N rb rs (cnvOffsetSplit b off).2 (Hal.cnvApplyCol N (a0.length + pt.length - (cnvOffsetSplit b off).1) (cnvOffsetSplit b off).1 x
+          (Hal.cnvPrepareCol N pt.length (msbMaskBottomLimb b bK) pt)) b) := rfl
+    rw [this, mapM_comp (fun x => Hal.cnvApplyCol N (a0.length + pt.length - (cnvOffsetSplit b off).1) (cnvOffsetSplit b off).1 x
+          (Hal.cnvPrepareCol N pt.length (msbMaskBottomLimb b bK) pt))
+      (fun c => bigNormalizeOff big128 N rb rs (cnvOffsetSplit b off).2 c b)]
+    exact h1
+  · obtain ⟨En, Q, hE, hQ, hnm, he⟩ := h5 s
+    have e1 : ((prepAll N (msbMaskBottomLimb b aK) (a0 :: as)).map (fun x => Hal.cnvApplyCol N (a0.length + pt.length - (cnvOffsetSplit b off).1) (cnvOffsetSplit b off).1 x
+        (Hal.cnvPrepareCol N pt.length (msbMaskBottomLimb b bK) pt))).length - 1 = as.length := by simp [prepAll]
+    rw [e1] at hnm
+    refine ⟨En, Q, hE, hQ, hnm, ?_⟩
+    have h3' := mul_plain_phase_value N hN s (Hal.cnvPrepareCol N a0.length (msbMaskBottomLimb b aK) a0) (prepAll N (msbMaskBottomLimb b aK) as)
+      (Hal.cnvPrepareCol N pt.length (msbMaskBottomLimb b bK) pt) (cnvOffsetSplit b off).1 a0.length ((2 : Ks.R N) ^ b)
+      (Hal.cnvPrepareCol_length _ _ _ _)
+      (by
+        intro x hx
+        obtain ⟨c, hc, rfl⟩ := List.mem_map.mp hx
+        rw [Hal.cnvPrepareCol_length]; exact hall c hc)
+      (cnvPrepareCol_limbs N _ _ a0 hx0)
+      (by
+        intro x hx
+        obtain ⟨c, hc, rfl⟩ := List.mem_map.mp hx
+        exact cnvPrepareCol_limbs N _ _ c (hxs c hc))
+      hptP hsa (by rw [Hal.cnvPrepareCol_length]; exact hsb) (by rw [Hal.cnvPrepareCol_length]; exact hhi)
+    rw [Hal.cnvPrepareCol_length] at h3'
+    have e2 : prepAll N (msbMaskBottomLimb b aK) (a0 :: as)
+        = Hal.cnvPrepareCol N a0.length (msbMaskBottomLimb b aK) a0 :: prepAll N (msbMaskBottomLimb b aK) as := rfl
+    rw [e2] at he
+    have e3 : (prepAll N (msbMaskBottomLimb b aK) as).length = as.length := by simp [prepAll]
+    rw [e3] at h3'
+    rw [he, ← h3']
+    ring
+
+example (s : List Poly) : ∃ res, mulPlain false 1 4 2 4 4 ((([[3], [0]] : Col)) :: [[[1], [0]]]) 8 [[2]] 4 = some res ∧ C02L.GWF 1 (Ks.mkCt 4 1 res) := by
+  obtain ⟨res, h1, h2, _⟩ := mul_plain_decrypts (N := 1) (by decide) false 4 2 4 4 2 [[3], [0]] [[[1], [0]]] 8 [[2]] 4 (2 ^ 61)
+    rfl (by decide) (by decide) (by decide) (by decide) (by decide) (by decide) (by decide) (by decide) (by decide) (by decide) (by decide) (by decide)
+    (by decide) (by decide) s
+  exact ⟨res, h1, h2⟩
+
+/-- **`relin_decrypts`** — `glwe_tensor_relinearize` with the tensor in the key radix, END TO END, result in ANY radix `1..62`, every key digit
+size, both accumulator widths: the call returns and
+`2^(bg·S)·phase(res) = 2^(rb·rs)·(Σ_p σ_p·usedVal(a_p) + Σ_p(Σ_r digit·E − dropped − β^S·head) + phase(tensor columns 0..rank)) + En + 2^(…)·Q`,
+`‖En‖_∞ ≤ (1 + Σ‖s_i‖₁)·normTol`.  Hypotheses: head-room `|product| ≤ X`, `|tensor| ≤ Y`, `X + Y + 8 ≤ 2^62 / 2^126`, key relation. -/
+theorem relin_decrypts {N : Nat} (big128 : Bool) (rb rs : Nat) (a : List Col) (g : GGLWE) (res0 : List Col) (sk : List Poly) (X Y : Int)
+    (hrb1 : 1 ≤ rb) (hrb : rb ≤ 62) (hgb1 : 1 ≤ g.base2k) (hgb : g.base2k ≤ 62)
+    (hX0 : 0 ≤ X) (hY0 : 0 ≤ Y) (hH : X + Y + 8 ≤ 2 ^ (bitsOf big128 - 2))
+    (hPb : ∀ c ∈ Core.gglweProductDft (relinInput N a g) g g.size res0, ∀ l ∈ c, ∀ x ∈ l, |x| ≤ X)
+    (hawf : ∀ j, j < g.colsOut → C02L.LimbsN N (a.getD j [])) (hab : ∀ c ∈ a, ∀ l ∈ c, ∀ x ∈ l, |x| ≤ Y)
+    (σ : ℕ → Ks.R N) (E : ℕ → ℕ → Ks.R N)
+    (hd : 1 ≤ g.dsize) (hN : 0 < N) (hn : g.n = N) (hc : 0 < g.colsOut)
+    (h0 : shapeOk g.n g.colsOut g.size res0 = true) (hM : ∀ j q, (g.toPMat.entry j q).length = N)
+    (hS : g.dnum * g.dsize ≤ g.size)
+    (hkey : ∀ i, i < g.colsIn → ∀ r, r < g.dnum →
+      Gadget.val ((2 : Ks.R N) ^ g.base2k) g.size (Ks.keyPhase N sk g.toPMat i r)
+        = 1 * σ i * ((2 : Ks.R N) ^ g.base2k) ^ (g.size - (r + 1) * g.dsize) + E i r) :
+    ∃ res, relinearize big128 N rb rs a g.base2k g g.size res0 = some res ∧ C02L.GWF N (Ks.mkCt rb N res) ∧
+      (∀ c ∈ res, ∀ l ∈ c, ∀ x ∈ l, |x| ≤ 2 ^ rb - 1) ∧
+      ∃ En Q : Poly, En.length = N ∧ Q.length = N ∧
+        normInf En ≤ (1 + C02L.snorm (min (g.colsOut - 1) sk.length) sk) * C02.normTol (rb * rs) (g.base2k * g.size) ∧
+        (2 : Ks.R N) ^ (g.base2k * g.size) * Ks.ι N (C02L.valP rb N (Core.Ops.phase sk (Ks.mkCt rb N res)))
+          = (2 : Ks.R N) ^ (rb * rs) * ((1 * ∑ i ∈ Finset.range g.colsIn,
+              σ i * Gadget.usedVal ((2 : Ks.R N) ^ g.base2k) g.size g.dsize g.dnum ((relinInput N a g).getD 0 []).length
+                (Ks.inLimb N (mkBuf g.n g.colsIn ((relinInput N a g).getD 0 []).length (relinInput N a g)) i)
+            + ∑ i ∈ Finset.range g.colsIn,
+              (∑ r ∈ Finset.range g.dnum,
+                  Gadget.digit ((2 : Ks.R N) ^ g.base2k) g.dsize g.dnum ((relinInput N a g).getD 0 []).length
+                    (Ks.inLimb N (mkBuf g.n g.colsIn ((relinInput N a g).getD 0 []).length (relinInput N a g)) i) r * E i r
+                - Gadget.dropped ((2 : Ks.R N) ^ g.base2k) g.size g.dsize g.dnum ((relinInput N a g).getD 0 []).length
+                    (Ks.inLimb N (mkBuf g.n g.colsIn ((relinInput N a g).getD 0 []).length (relinInput N a g)) i) (Ks.keyPhase N sk g.toPMat i)
+                - ((2 : Ks.R N) ^ g.base2k) ^ g.size * Gadget.head ((2 : Ks.R N) ^ g.base2k) g.dsize g.dnum ((relinInput N a g).getD 0 []).length
+                    (Ks.inLimb N (mkBuf g.n g.colsIn ((relinInput N a g).getD 0 []).length (relinInput N a g)) i) (Ks.keyPhase N sk g.toPMat i)))
+              + Ks.ι N (C02L.valP g.base2k N (Core.Ops.phase sk (Ks.mkCt g.base2k N
+                  ((List.range g.colsOut).map (fun j => C02L.fit N g.size (a.getD j [])))))))
+            + Ks.ι N En + (2 : Ks.R N) ^ (rb * rs + g.base2k * g.size) * Ks.ι N Q := by
+  obtain ⟨n, hn1⟩ : ∃ n, g.colsOut = n + 1 := ⟨g.colsOut - 1, by omega⟩
+  have hwf := gglweProductDft_wf N (relinInput N a g) g res0 hd hn h0 hM
+  have hPlen : (Core.gglweProductDft (relinInput N a g) g g.size res0).length = n + 1 := by simp [Core.gglweProductDft, hn1]
+  obtain ⟨cs, h1, h2, h3, h4, h5⟩ := acc_norm_total big128 N rb rs g.base2k g.size n 0 X Y _ (fun j => a.getD j []) hN
+    hrb1 hrb hgb1 hgb hX0 hY0 hH hPlen hwf hPb (fun j hj => hawf j (by omega)) (fun j _ => getD_bound a Y hab j)
+  have hcsne : cs ≠ [] := by intro h; rw [h] at h2; simp at h2
+  refine ⟨cs, ?_, (gwf_mk (N := N) rb rs cs hcsne h3).1, h4, ?_⟩
+  · have hrel : relinearize big128 N rb rs a g.base2k g g.size res0 = (List.range g.colsOut).mapM (fun j => bigNormalizeOff big128 N rb rs 0
+        (bigAddSmallAssign big128 ((Core.gglweProductDft (relinInput N a g) g g.size res0).getD j []) (a.getD j [])) g.base2k) := by
+      unfold relinearize relinInput
+      simp only [ne_eq, not_true_eq_false, if_false, if_true, mapM_some_map, Option.bind_some]
+      exact (mapM_comp _ _ _).symm
+    rw [hrel, hn1]
+    exact h1
+  · obtain ⟨En, Q, hE, hQ, hnm, he⟩ := h5 sk
+    rw [normTolOff_zero] at hnm
+    have e : g.colsOut - 1 = n := by omega
+    refine ⟨En, Q, hE, hQ, by rw [e]; exact hnm, ?_⟩
+    have h3' := relin_product_value N sk (relinInput N a g) g res0 ((2 : Ks.R N) ^ g.base2k) σ E hd hN hn hc h0 hM hS hkey
+    rw [h3'] at he
+    rw [hn1]
+    simpa using he
+
+example (σ : ℕ → Ks.R 1) : ∃ res, relinearize true 1 4 3 ([[[1], [0]], [[0], [1]], [[2], [1]]] : List Col) exTsk.base2k exTsk exTsk.size (zeroCols 1 2 3) = some res ∧
+    C02L.GWF 1 (Ks.mkCt 4 1 res) := by
+  obtain ⟨res, h1, h2, _⟩ := relin_decrypts (N := 1) true 4 3 ([[[1], [0]], [[0], [1]], [[2], [1]]] : List Col) exTsk (zeroCols 1 2 3) [[1]] (2 ^ 100) (2 ^ 100)
+    (by decide) (by decide) (by decide) (by decide) (by decide) (by decide) (by decide) (by decide +kernel) (by decide) (by decide)
+    σ (fun i r => Gadget.val ((2 : Ks.R 1) ^ exTsk.base2k) exTsk.size (Ks.keyPhase 1 [[1]] exTsk.toPMat i r)
+                    - 1 * σ i * ((2 : Ks.R 1) ^ exTsk.base2k) ^ (exTsk.size - (r + 1) * exTsk.dsize))
+    (by decide) (by decide) rfl (by decide) (by decide) (Ks.entry_length exTsk.toPMat 1 rfl (by decide +kernel)) (by decide)
+    (by intro i _ r _; exact (add_sub_cancel _ _).symm)
+  exact ⟨res, h1, h2⟩
+/-! ## Head-room derived from digit bounds; admissible shapes -/
+
+/-- **`relin_headroom`** — head-room of the relinearisation product derived from digit bounds: `|pair columns| ≤ Da`, `|tensor key| ≤ Dm` ⇒
+every coefficient of the executed `gglwe_product_dft` is bounded by `dsize·(pairs·dnum)·N·Da·Dm`. -/
+theorem relin_headroom (N : Nat) (a : List Col) (g : GGLWE) (res0 : List Col) (Da Dm : Int) (hDa : 0 ≤ Da) (hDm : 0 ≤ Dm)
+    (hd : 1 ≤ g.dsize) (hn : g.n = N)
+    (ha : shapeOk g.n g.colsIn (a.getD 0 []).length a = true) (h0 : shapeOk g.n g.colsOut g.size res0 = true)
+    (hab : ∀ c ∈ a, ∀ l ∈ c, ∀ x ∈ l, |x| ≤ Da)
+    (hgb : ∀ row ∈ g.cells, ∀ c ∈ row, ∀ l ∈ c, ∀ x ∈ l, |x| ≤ Dm) :
+    ∀ c ∈ Core.gglweProductDft a g g.size res0, ∀ l ∈ c, ∀ x ∈ l, |x| ≤ prodBound g.dsize g.colsIn g.dnum N Da Dm :=
+  gglweProductDft_bound N a g res0 Da Dm hDa hDm hd hn ha h0 hab hgb
+
+example : ∀ c ∈ Core.gglweProductDft [[[2], [1]]] exTsk exTsk.size (zeroCols 1 2 3), ∀ l ∈ c, ∀ x ∈ l, |x| ≤ prodBound 2 1 1 1 2 1 :=
+  relin_headroom 1 [[[2], [1]]] exTsk _ 2 1 (by decide) (by decide) (by decide) rfl (by decide) (by decide) (by decide) (by decide +kernel)
+
+/-- **`mul_const_headroom`** — `|a| ≤ Da`, `|cst| ≤ Db` ⇒ every coefficient of `cnv_by_const_apply` is bounded by `|cst|·Db·Da` -/
+theorem mul_const_headroom (n S hi : Nat) (x : Col) (b : List Int) (Da Db : Int) (hDa : 0 ≤ Da) (hDb : 0 ≤ Db)
+    (hx : ∀ l ∈ x, ∀ v ∈ l, |v| ≤ Da) (hb : ∀ c ∈ b, |c| ≤ Db) :
+    ∀ l ∈ cnvByConstCol n S hi x b, ∀ v ∈ l, |v| ≤ (b.length : Int) * (Db * Da) :=
+  cnvByConstCol_bound n S hi x b Da Db hDa hDb hx hb
+
+example : ∀ l ∈ cnvByConstCol 1 3 0 [[3], [5]] [2, 1], ∀ v ∈ l, |v| ≤ ((([2, 1] : List Int).length : Nat) : Int) * (2 * 5) :=
+  mul_const_headroom 1 3 0 [[3], [5]] [2, 1] 5 2 (by decide) (by decide) (by decide) (by decide)
+
+/-- **`mul_plain_headroom`** — bivariate convolution (`glwe_mul_plain`, every diagonal / pairwise product of the tensor forms):
+`|x| ≤ Da`, `|y| ≤ Db` ⇒ every coefficient of `cnv_apply_dft` is bounded by `|y|·N·Da·Db` -/
+theorem mul_plain_headroom (n S hi : Nat) (x y : Col) (Da Db : Int) (hDa : 0 ≤ Da) (hDb : 0 ≤ Db)
+    (hx : ∀ l ∈ x, l.length ≤ n ∧ ∀ v ∈ l, |v| ≤ Da) (hy : ∀ l ∈ y, ∀ v ∈ l, |v| ≤ Db) :
+    ∀ l ∈ Hal.cnvApplyCol n S hi x y, ∀ v ∈ l, |v| ≤ (y.length : Int) * ((n : Int) * Da * Db) :=
+  cnvApplyCol_bound n S hi x y Da Db hDa hDb hx hy
+
+example : ∀ l ∈ Hal.cnvApplyCol 1 3 0 [[3], [5]] [[2]], ∀ v ∈ l, |v| ≤ (((([[2]] : Col)).length : Nat) : Int) * (((1 : Nat) : Int) * 5 * 2) :=
+  mul_plain_headroom 1 3 0 [[3], [5]] [[2]] 5 2 (by decide) (by decide) (by decide) (by decide)
+
+/-- the crate's parameter sets are admissible for the convolutions (balanced digits `2^(b−1)`): `b = 18`, `N = 4096`, 3 limbs and `b = 13`,
+`N = 1024`, 4 limbs on i64; CKKS `b = 52`, `N = 4096`, 16 limbs on i128 only -/
+example : cnvAdmissible 64 3 4096 (2 ^ 17) (2 ^ 17) ∧ cnvAdmissible 64 4 1024 (2 ^ 12) (2 ^ 12) ∧
+    cnvAdmissible 128 16 4096 (2 ^ 51) (2 ^ 51) ∧ ¬ cnvAdmissible 64 16 4096 (2 ^ 51) (2 ^ 51) := by decide
+
+/-- **`mul_const_decrypts_of_digits`** — `mul_const_decrypts` with the head-room derived from `|a| ≤ Da`, `|cst| ≤ Db` and the explicit
+admissible-shape inequality `|cst|·Da·Db + 8 ≤ 2^62 / 2^126` (`Core.cnvAdmissible` with `N := 1`). -/
+theorem mul_const_decrypts_of_digits {N : Nat} (hN : 0 < N) (big128 : Bool) (rb rs off b sa : Nat) (a0 : Col) (as : List Col) (cst : List Int)
+    (Da Db : Int)
+    (h0 : a0.length = sa) (hall : ∀ x ∈ as, x.length = sa) (hx0 : ∀ l ∈ a0, l.length = N) (hxs : ∀ x ∈ as, ∀ l ∈ x, l.length = N)
+    (hsa : 1 ≤ sa) (hsb : 1 ≤ cst.length) (hhi : (cnvOffsetSplit b off).1 ≤ sa + cst.length - 1)
+    (hrb1 : 1 ≤ rb) (hrb : rb ≤ 62) (hb1 : 1 ≤ b) (hb : b ≤ 62) (hDa : 0 ≤ Da) (hDb : 0 ≤ Db)
+    (hadm : cnvAdmissible (bitsOf big128) cst.length 1 Da Db)
+    (hab : ∀ x ∈ a0 :: as, ∀ l ∈ x, ∀ v ∈ l, |v| ≤ Da) (hcb : ∀ c ∈ cst, |c| ≤ Db)
+    (s : List Poly) :
+    ∃ res, mulConst false big128 N rb rs off b (a0 :: as) cst = some res ∧ C02L.GWF N (Ks.mkCt rb N res) ∧
+      (∀ c ∈ res, ∀ l ∈ c, ∀ x ∈ l, |x| ≤ 2 ^ rb - 1) := by
+  have hK : (0 : Int) ≤ (cst.length : Int) * (Db * Da) := by positivity
+  unfold cnvAdmissible at hadm
+  obtain ⟨res, h1, h2, h3, _⟩ := mul_const_decrypts hN big128 rb rs off b sa a0 as cst ((cst.length : Int) * (Db * Da))
+    h0 hall hx0 hxs hsa hsb hhi hrb1 hrb hb1 hb hK (by push_cast at hadm ⊢; linarith)
+    (fun x hx => mul_const_headroom N _ _ x cst Da Db hDa hDb (hab x hx) hcb) s
+  exact ⟨res, h1, h2, h3⟩
+
+example (s : List Poly) : ∃ res, mulConst false false 1 4 2 4 4 ((([[3], [0]] : Col)) :: [[[1], [0]]]) [2] = some res ∧ C02L.GWF 1 (Ks.mkCt 4 1 res) := by
+  obtain ⟨res, h1, h2, _⟩ := mul_const_decrypts_of_digits (N := 1) (by decide) false 4 2 4 4 2 [[3], [0]] [[[1], [0]]] [2] 3 2
+    rfl (by decide) (by decide) (by decide) (by decide) (by decide) (by decide) (by decide) (by decide) (by decide) (by decide) (by decide) (by decide)
+    (by decide) (by decide) (by decide) s
+  exact ⟨res, h1, h2⟩
+
+/-! ## The two model-level laws for every rank -/
+
+/-- the normalised convolutions always return (C08 termination), radices `≥ 1` -/
+theorem cnvNorm_total (big128 : Bool) (n rb rs b dft hi : Nat) (lo : Int) (x y : Col) (hrb : 1 ≤ rb) (hb : 1 ≤ b) :
+    ∃ c, cnvNorm big128 n rb rs b dft hi lo x y = some c := by
+  unfold cnvNorm bigNormalizeOff
+  cases big128 with
+  | true => exact NormL.bigNormalizeCol128?_exists rb rs lo _ b n hb hrb
+  | false => exact NormL.normalizeCol?_exists rb rs lo _ b n hb hrb
+
+example : ∃ c, cnvNorm false 1 4 2 4 3 0 0 [[3], [5]] [[2], [1]] = some c := cnvNorm_total false 1 4 2 4 3 0 0 _ _ (by decide) (by decide)
+
+/-- **squaring = multiplying a ciphertext by itself, EVERY rank** (radices `≥ 1`): `glwe_tensor_square_apply(a)` and `glwe_tensor_apply(a, a)`
+return the same tensor bit for bit, for every number of columns, operand, precision, offset, radix pair, accumulator type and prior content.
+Proof: both loops are folds of column updates (`Lemmas/TensorCols.lean`), the content of a column is the fold of the updates that hit it, the
+column index is injective (`cix_inj`), and per column `(−dᵢ − dⱼ) + p = (p − dᵢ) − dⱼ` in wrapping arithmetic (`col_square`). -/
+theorem tensorSquare_eq_tensorApply (big : Bool) (n rb rs off b : Nat) (a : List Col) (k : Nat) (res0 : List Col)
+    (hrb : 1 ≤ rb) (hb : 1 ≤ b) :
+    tensorSquare big n rb rs off b a k res0 = tensorApply false big n rb rs off b a k a k res0 := by
+  unfold tensorSquare tensorApply
+  simp only [Nat.two_mul]
+  exact square_eq_apply_all n a.length rs _ _ res0
+    (fun i _ => cnvNorm_total _ _ _ _ _ _ _ _ _ _ hrb hb) (fun i j _ _ => cnvNorm_total _ _ _ _ _ _ _ _ _ _ hrb hb)
+    (fun i d hd => cnvNorm_shape _ _ _ _ _ _ _ _ _ _ _ hd) (fun i j p hp => cnvNorm_shape _ _ _ _ _ _ _ _ _ _ _ hp)
+
+/-- rank 3 (four columns, ten tensor columns) -/
+example : tensorSquare false 1 4 2 4 4 [[[1], [0]], [[2], [1]], [[0], [3]], [[1], [1]]] 8 (zeroCols 1 10 2)
+    = tensorApply false false 1 4 2 4 4 [[[1], [0]], [[2], [1]], [[0], [3]], [[1], [1]]] 8 [[[1], [0]], [[2], [1]], [[0], [3]], [[1], [1]]] 8 (zeroCols 1 10 2) :=
+  tensorSquare_eq_tensorApply false 1 4 2 4 4 _ 8 _ (by decide) (by decide)
+
+/-- **the accumulate variant adds exactly the product, EVERY rank**: column index onto `[0, cols(cols+1)/2)` (`cix_surj`), per column
+`((r − dᵢ) − dⱼ) + p = r + ((−dᵢ − dⱼ) + p)` (`col_acc`). -/
+theorem tensorApply_acc_eq_add (big : Bool) (n rb rs off b : Nat) (a : List Col) (ka : Nat) (x : List Col) (kx : Nat)
+    (res0 zs : List Col) (hrb : 1 ≤ rb) (hb : 1 ≤ b)
+    (hr : res0.length = (a.length + 1) * a.length / 2) (hz : zs.length = (a.length + 1) * a.length / 2)
+    (hshape : ∀ r ∈ res0, ColShape n rs r) :
+    tensorApply true big n rb rs off b a ka x kx res0
+      = (tensorApply false big n rb rs off b a ka x kx zs).map (fun pr => List.zipWith (vecAddAssignW w64) res0 pr) := by
+  unfold tensorApply
+  exact acc_eq_add_all n a.length rs _ _ res0 zs hr hz hshape
+    (fun i _ => cnvNorm_total _ _ _ _ _ _ _ _ _ _ hrb hb) (fun i j _ _ => cnvNorm_total _ _ _ _ _ _ _ _ _ _ hrb hb)
+    (fun i d hd => cnvNorm_shape _ _ _ _ _ _ _ _ _ _ _ hd) (fun i j p hp => cnvNorm_shape _ _ _ _ _ _ _ _ _ _ _ hp)
+
+example : tensorApply true false 1 4 2 4 4 [[[1], [0]], [[2], [1]], [[0], [3]], [[1], [1]]] 8 [[[1], [0]], [[2], [1]], [[0], [3]], [[1], [1]]] 8 (zeroCols 1 10 2)
+    = (tensorApply false false 1 4 2 4 4 [[[1], [0]], [[2], [1]], [[0], [3]], [[1], [1]]] 8 [[[1], [0]], [[2], [1]], [[0], [3]], [[1], [1]]] 8 (zeroCols 1 10 2)).map
+        (fun pr => List.zipWith (vecAddAssignW w64) (zeroCols 1 10 2) pr) :=
+  tensorApply_acc_eq_add false 1 4 2 4 4 _ 8 _ 8 _ _ (by decide) (by decide) (by decide) (by decide) (by unfold ColShape; decide)
+
+/-! ## The three tensor entry points: decrypt (with the secret tensor) to the product at the documented scale -/
+
+/-- **`tensor_apply_decrypts`** — `glwe_tensor_apply`, END TO END, EVERY rank, any radix pair (`rb ≤ 61`), every `cnv_offset`, both accumulator
+widths: the call returns a tensor `T` that decrypts, with `glwe_tensor_decrypt`'s grouped secret `(s, s⊗s)` (`ι(skG[cix(i,j) − 1]) = σ_i σ_j`,
+`σ_0 = 1`), to the product of the two (masked) phases at the documented scale (`Core.TensorSpec`):
+`A·phase_{skG}(T) = K·β·(Σ_i σ_i val(a'_i))·(Σ_j σ_j val(b'_j)) + Σ_i (σ_i² rD_i + Σ_{j>i} σ_i σ_j (rP_ij − rD_i − rD_j))`, `A = β^{F−S}·2^{b·S+(−lo)⁺}`,
+`K = 2^{rb·rs}·2^{lo⁺}`, every residual = rescaled rounding of ONE normalisation (`‖e‖_∞ ≤ normTolOff`, from C08) + multiple of the torus modulus −
+the explicit dropped / skipped limbs of that convolution.  Only analytic hypothesis: accumulator head-room (`mul_plain_headroom`). -/
+theorem tensor_apply_decrypts (big128 : Bool) (N rb rs off b : Nat) (a bb : List Col) (aK bK : Nat) (res0 : List Col) (skG : List Poly)
+    (σ : ℕ → Ks.R N) (H : Int) (sa sb cols : Nat) (hN : 0 < N)
+    (hcols : a.length = cols) (hcb : bb.length = cols) (hc1 : 1 ≤ cols)
+    (ha : ∀ x ∈ a, x.length = sa ∧ ∀ l ∈ x, l.length = N) (hbb : ∀ x ∈ bb, x.length = sb ∧ ∀ l ∈ x, l.length = N)
+    (hsa : 1 ≤ sa) (hsb : 1 ≤ sb) (hhi : (cnvOffsetSplit b off).1 ≤ sa + sb - 1)
+    (hr0 : res0.length = (cols + 1) * cols / 2)
+    (hrb1 : 1 ≤ rb) (hrb : rb ≤ 61) (hb1 : 1 ≤ b) (hb : b ≤ 62) (hH0 : 0 ≤ H) (hH : H + 8 ≤ 2 ^ (bitsOf big128 - 2))
+    (haccD : ∀ i, i < cols → ∀ l ∈ Hal.cnvApplyCol N (limbBoundWithOffset (sa + sb - (cnvOffsetSplit b off).1) rs rb b (cnvOffsetSplit b off).2)
+        (cnvOffsetSplit b off).1 ((prepAll N (msbMaskBottomLimb b aK) a).getD i []) ((prepAll N (msbMaskBottomLimb b bK) bb).getD i []),
+        ∀ v ∈ l, |v| ≤ H)
+    (haccP : ∀ i j, i < j → j < cols → ∀ l ∈ Hal.cnvApplyCol N (limbBoundWithOffset (sa + sb - (cnvOffsetSplit b off).1) rs rb b (cnvOffsetSplit b off).2)
+        (cnvOffsetSplit b off).1
+        (Hal.colAdd N ((prepAll N (msbMaskBottomLimb b aK) a).getD i []) ((prepAll N (msbMaskBottomLimb b aK) a).getD j []))
+        (Hal.colAdd N ((prepAll N (msbMaskBottomLimb b bK) bb).getD i []) ((prepAll N (msbMaskBottomLimb b bK) bb).getD j [])),
+        ∀ v ∈ l, |v| ≤ H)
+    (hskl : skG.length = (cols + 1) * cols / 2 - 1) (hσ0 : σ 0 = 1)
+    (hτ : ∀ i j, i ≤ j → j < cols → 0 < cix cols i j → Ks.ι N (skG.getD (cix cols i j - 1) []) = σ i * σ j) :
+    ∃ T, tensorApply false big128 N rb rs off b a aK bb bK res0 = some T ∧ TensorSpec N rb rs off b a bb aK bK skG σ sa sb cols T :=
+  tensorApply_spec big128 N rb rs off b a bb aK bK res0 skG σ H sa sb cols hN hcols hcb hc1 ha hbb hsa hsb hhi hr0 hrb1 hrb hb1 hb hH0 hH
+    haccD haccP hskl hσ0 hτ
+
+/-- rank 1: the grouped secret `[s, s⋆s]` -/
+example : ∃ T, tensorApply false false 1 4 2 4 4 [[[3], [0]], [[1], [0]]] 8 [[[2], [0]], [[1], [0]]] 8 (zeroCols 1 3 2) = some T ∧ T.length = 3 := by
+  obtain ⟨T, h1, h2, _⟩ := tensor_apply_decrypts false 1 4 2 4 4 [[[3], [0]], [[1], [0]]] [[[2], [0]], [[1], [0]]] 8 8 (zeroCols 1 3 2)
+    [[2], Hal.negMul [2] [2]] (fun i => if i = 0 then 1 else Ks.ι 1 [2]) (2 ^ 61) 2 2 2 (by decide) rfl rfl (by decide)
+    (by decide) (by decide) (by decide) (by decide) (by decide) (by decide) (by decide) (by decide) (by decide) (by decide) (by decide) (by decide)
+    (by decide)
+    (by
+      intro i j hij hj
+      have h01 : i = 0 ∧ j = 1 := by omega
+      obtain ⟨rfl, rfl⟩ := h01
+      decide)
+    (by decide) rfl
+    (by
+      intro i j hij hj hpos
+      have hcases : (i = 0 ∧ j = 1) ∨ (i = 1 ∧ j = 1) := by
+        have hj2 : j < 2 := hj
+        have : ¬ (i = 0 ∧ j = 0) := by
+          rintro ⟨rfl, rfl⟩; simp [cix, colIdx] at hpos
+        omega
+      rcases hcases with ⟨rfl, rfl⟩ | ⟨rfl, rfl⟩
+      · have e : cix 2 0 1 - 1 = 0 := by decide
+        rw [e]; simp
+      · have e : cix 2 1 1 - 1 = 1 := by decide
+        rw [e]
+        show Ks.ι 1 (Hal.negMul [2] [2]) = _
+        rw [Ks.ι_negMul 1 _ _ rfl (by decide)]; simp)
+  exact ⟨T, h1, h2⟩
+
+/-- **`tensor_square_decrypts`** — `glwe_tensor_square_apply(a)`: the same statement with `b = a` (by `tensorSquare_eq_tensorApply`, every rank) -/
+theorem tensor_square_decrypts (big128 : Bool) (N rb rs off b : Nat) (a : List Col) (aK : Nat) (res0 : List Col) (skG : List Poly)
+    (σ : ℕ → Ks.R N) (H : Int) (sa cols : Nat) (hN : 0 < N)
+    (hcols : a.length = cols) (hc1 : 1 ≤ cols)
+    (ha : ∀ x ∈ a, x.length = sa ∧ ∀ l ∈ x, l.length = N)
+    (hsa : 1 ≤ sa) (hhi : (cnvOffsetSplit b off).1 ≤ sa + sa - 1)
+    (hr0 : res0.length = (cols + 1) * cols / 2)
+    (hrb1 : 1 ≤ rb) (hrb : rb ≤ 61) (hb1 : 1 ≤ b) (hb : b ≤ 62) (hH0 : 0 ≤ H) (hH : H + 8 ≤ 2 ^ (bitsOf big128 - 2))
+    (haccD : ∀ i, i < cols → ∀ l ∈ Hal.cnvApplyCol N (limbBoundWithOffset (sa + sa - (cnvOffsetSplit b off).1) rs rb b (cnvOffsetSplit b off).2)
+        (cnvOffsetSplit b off).1 ((prepAll N (msbMaskBottomLimb b aK) a).getD i []) ((prepAll N (msbMaskBottomLimb b aK) a).getD i []),
+        ∀ v ∈ l, |v| ≤ H)
+    (haccP : ∀ i j, i < j → j < cols → ∀ l ∈ Hal.cnvApplyCol N (limbBoundWithOffset (sa + sa - (cnvOffsetSplit b off).1) rs rb b (cnvOffsetSplit b off).2)
+        (cnvOffsetSplit b off).1
+        (Hal.colAdd N ((prepAll N (msbMaskBottomLimb b aK) a).getD i []) ((prepAll N (msbMaskBottomLimb b aK) a).getD j []))
+        (Hal.colAdd N ((prepAll N (msbMaskBottomLimb b aK) a).getD i []) ((prepAll N (msbMaskBottomLimb b aK) a).getD j [])),
+        ∀ v ∈ l, |v| ≤ H)
+    (hskl : skG.length = (cols + 1) * cols / 2 - 1) (hσ0 : σ 0 = 1)
+    (hτ : ∀ i j, i ≤ j → j < cols → 0 < cix cols i j → Ks.ι N (skG.getD (cix cols i j - 1) []) = σ i * σ j) :
+    ∃ T, tensorSquare big128 N rb rs off b a aK res0 = some T ∧ TensorSpec N rb rs off b a a aK aK skG σ sa sa cols T := by
+  rw [tensorSquare_eq_tensorApply big128 N rb rs off b a aK res0 hrb1 hb1]
+  exact tensor_apply_decrypts big128 N rb rs off b a a aK aK res0 skG σ H sa sa cols hN hcols hcols hc1 ha ha hsa hsa hhi hr0 hrb1 hrb hb1 hb
+    hH0 hH haccD haccP hskl hσ0 hτ
+
+example : ∃ T, tensorSquare false 1 4 2 4 4 [[[3], [0]], [[1], [0]]] 8 (zeroCols 1 3 2) = some T ∧ T.length = 3 := by
+  obtain ⟨T, h1, h2, _⟩ := tensor_square_decrypts false 1 4 2 4 4 [[[3], [0]], [[1], [0]]] 8 (zeroCols 1 3 2)
+    [[2], Hal.negMul [2] [2]] (fun i => if i = 0 then 1 else Ks.ι 1 [2]) (2 ^ 61) 2 2 (by decide) rfl (by decide)
+    (by decide) (by decide) (by decide) (by decide) (by decide) (by decide) (by decide) (by decide) (by decide) (by decide)
+    (by decide)
+    (by
+      intro i j hij hj
+      have h01 : i = 0 ∧ j = 1 := by omega
+      obtain ⟨rfl, rfl⟩ := h01
+      decide)
+    (by decide) rfl
+    (by
+      intro i j hij hj hpos
+      have hcases : (i = 0 ∧ j = 1) ∨ (i = 1 ∧ j = 1) := by
+        have hj2 : j < 2 := hj
+        have : ¬ (i = 0 ∧ j = 0) := by
+          rintro ⟨rfl, rfl⟩; simp [cix, colIdx] at hpos
+        omega
+      rcases hcases with ⟨rfl, rfl⟩ | ⟨rfl, rfl⟩
+      · have e : cix 2 0 1 - 1 = 0 := by decide
+        rw [e]; simp
+      · have e : cix 2 1 1 - 1 = 1 := by decide
+        rw [e]
+        show Ks.ι 1 (Hal.negMul [2] [2]) = _
+        rw [Ks.ι_negMul 1 _ _ rfl (by decide)]; simp)
+  exact ⟨T, h1, h2⟩
+
+/-- **`tensor_apply_add_assign_decrypts`** — `glwe_tensor_apply_add_assign`: the result is the previous tensor `res0` plus (column-wise
+`vec_znx_add_assign`, exact under head-room: `C02L.vecAddAssign_nf`) a tensor `T` satisfying `Core.TensorSpec`, every rank. -/
+theorem tensor_apply_add_assign_decrypts (big128 : Bool) (N rb rs off b : Nat) (a bb : List Col) (aK bK : Nat) (res0 : List Col) (skG : List Poly)
+    (σ : ℕ → Ks.R N) (H : Int) (sa sb cols : Nat) (hN : 0 < N)
+    (hcols : a.length = cols) (hcb : bb.length = cols) (hc1 : 1 ≤ cols)
+    (ha : ∀ x ∈ a, x.length = sa ∧ ∀ l ∈ x, l.length = N) (hbb : ∀ x ∈ bb, x.length = sb ∧ ∀ l ∈ x, l.length = N)
+    (hsa : 1 ≤ sa) (hsb : 1 ≤ sb) (hhi : (cnvOffsetSplit b off).1 ≤ sa + sb - 1)
+    (hr0 : res0.length = (cols + 1) * cols / 2) (hshape : ∀ r ∈ res0, ColShape N rs r)
+    (hrb1 : 1 ≤ rb) (hrb : rb ≤ 61) (hb1 : 1 ≤ b) (hb : b ≤ 62) (hH0 : 0 ≤ H) (hH : H + 8 ≤ 2 ^ (bitsOf big128 - 2))
+    (haccD : ∀ i, i < cols → ∀ l ∈ Hal.cnvApplyCol N (limbBoundWithOffset (sa + sb - (cnvOffsetSplit b off).1) rs rb b (cnvOffsetSplit b off).2)
+        (cnvOffsetSplit b off).1 ((prepAll N (msbMaskBottomLimb b aK) a).getD i []) ((prepAll N (msbMaskBottomLimb b bK) bb).getD i []),
+        ∀ v ∈ l, |v| ≤ H)
+    (haccP : ∀ i j, i < j → j < cols → ∀ l ∈ Hal.cnvApplyCol N (limbBoundWithOffset (sa + sb - (cnvOffsetSplit b off).1) rs rb b (cnvOffsetSplit b off).2)
+        (cnvOffsetSplit b off).1
+        (Hal.colAdd N ((prepAll N (msbMaskBottomLimb b aK) a).getD i []) ((prepAll N (msbMaskBottomLimb b aK) a).getD j []))
+        (Hal.colAdd N ((prepAll N (msbMaskBottomLimb b bK) bb).getD i []) ((prepAll N (msbMaskBottomLimb b bK) bb).getD j [])),
+        ∀ v ∈ l, |v| ≤ H)
+    (hskl : skG.length = (cols + 1) * cols / 2 - 1) (hσ0 : σ 0 = 1)
+    (hτ : ∀ i j, i ≤ j → j < cols → 0 < cix cols i j → Ks.ι N (skG.getD (cix cols i j - 1) []) = σ i * σ j) :
+    ∃ T, tensorApply true big128 N rb rs off b a aK bb bK res0 = some (List.zipWith (vecAddAssignW w64) res0 T) ∧
+      TensorSpec N rb rs off b a bb aK bK skG σ sa sb cols T := by
+  obtain ⟨T, h1, h2⟩ := tensor_apply_decrypts big128 N rb rs off b a bb aK bK res0 skG σ H sa sb cols hN hcols hcb hc1 ha hbb hsa hsb hhi hr0
+    hrb1 hrb hb1 hb hH0 hH haccD haccP hskl hσ0 hτ
+  refine ⟨T, ?_, h2⟩
+  rw [tensorApply_acc_eq_add big128 N rb rs off b a aK bb bK res0 res0 hrb1 hb1 (by rw [hcols]; exact hr0) (by rw [hcols]; exact hr0) hshape, h1]
+  rfl
+
+example : ∃ T, tensorApply true false 1 4 2 4 4 [[[3], [0]], [[1], [0]]] 8 [[[2], [0]], [[1], [0]]] 8 (zeroCols 1 3 2)
+    = some (List.zipWith (vecAddAssignW w64) (zeroCols 1 3 2) T) ∧ T.length = 3 := by
+  obtain ⟨T, h1, h2, _⟩ := tensor_apply_add_assign_decrypts false 1 4 2 4 4 [[[3], [0]], [[1], [0]]] [[[2], [0]], [[1], [0]]] 8 8 (zeroCols 1 3 2)
+    [[2], Hal.negMul [2] [2]] (fun i => if i = 0 then 1 else Ks.ι 1 [2]) (2 ^ 61) 2 2 2 (by decide) rfl rfl (by decide)
+    (by decide) (by decide) (by decide) (by decide) (by decide) (by decide) (by unfold ColShape; decide) (by decide) (by decide) (by decide) (by decide) (by decide) (by decide)
+    (by decide)
+    (by
+      intro i j hij hj
+      have h01 : i = 0 ∧ j = 1 := by omega
+      obtain ⟨rfl, rfl⟩ := h01
+      decide)
+    (by decide) rfl
+    (by
+      intro i j hij hj hpos
+      have hcases : (i = 0 ∧ j = 1) ∨ (i = 1 ∧ j = 1) := by
+        have hj2 : j < 2 := hj
+        have : ¬ (i = 0 ∧ j = 0) := by
+          rintro ⟨rfl, rfl⟩; simp [cix, colIdx] at hpos
+        omega
+      rcases hcases with ⟨rfl, rfl⟩ | ⟨rfl, rfl⟩
+      · have e : cix 2 0 1 - 1 = 0 := by decide
+        rw [e]; simp
+      · have e : cix 2 1 1 - 1 = 1 := by decide
+        rw [e]
+        show Ks.ι 1 (Hal.negMul [2] [2]) = _
+        rw [Ks.ι_negMul 1 _ _ rfl (by decide)]; simp)
+  exact ⟨T, h1, h2⟩
+
+/-! ## relinearise ∘ tensor: the ciphertext × ciphertext product -/
+
+/-- a well-formed column list passes the executable shape check -/
+theorem shapeOk_of_wf (n cols size : Nat) (x : List Col) (hl : x.length = cols) (h : ∀ c ∈ x, C02L.ColWF n size c) :
+    shapeOk n cols size x = true := by
+  unfold shapeOk
+  simp only [Bool.and_eq_true, beq_iff_eq, List.all_eq_true]
+  exact ⟨hl, fun c hc => ⟨(h c hc).1, fun l hl' => (h c hc).2 l hl'⟩⟩
+
+/-- the gadget terms of a relinearisation -/
+noncomputable def relinErr (N : Nat) (sk : List Poly) (aD : List Col) (g : GGLWE) (β : Ks.R N) (E : ℕ → ℕ → Ks.R N) : Ks.R N :=
+  ∑ i ∈ Finset.range g.colsIn,
+    (∑ r ∈ Finset.range g.dnum,
+        Gadget.digit β g.dsize g.dnum (aD.getD 0 []).length (Ks.inLimb N (mkBuf g.n g.colsIn (aD.getD 0 []).length aD) i) r * E i r
+      - Gadget.dropped β g.size g.dsize g.dnum (aD.getD 0 []).length
+          (Ks.inLimb N (mkBuf g.n g.colsIn (aD.getD 0 []).length aD) i) (Ks.keyPhase N sk g.toPMat i)
+      - β ^ g.size * Gadget.head β g.dsize g.dnum (aD.getD 0 []).length
+          (Ks.inLimb N (mkBuf g.n g.colsIn (aD.getD 0 []).length aD) i) (Ks.keyPhase N sk g.toPMat i))
+
+example : shapeOk 1 2 2 [[[1], [0]], [[2], [3]]] = true := shapeOk_of_wf 1 2 2 _ rfl (by decide)
+
+/-- **`glwe_mul_decrypts`** — the ciphertext × ciphertext product, END TO END: `glwe_tensor_apply` followed by `glwe_tensor_relinearize` with a
+tensor key in the tensor's radix (`≤ 61`), covered regime (`rsT ≤ min(key.size, dnum·dsize)`), EVERY rank, both accumulator widths, result in
+any radix.  Both calls return, the result is well formed, and
+`2^(bt·S)·phase_s(res) = 2^(rb·rs)·(β^{S−rsT}·phase_{(s,s⊗s)}(T) + relinErr) + En + 2^(…)·Q` (`‖En‖_∞ ≤ (1+Σ‖s_i‖₁)·normTol`), where the tensor phase
+satisfies `Core.TensorSpec`: `A·phase_{(s,s⊗s)}(T) = K·β·(Σσ_i val(a'_i))·(Σσ_j val(b'_j)) + residuals` — i.e. the relinearised product decrypts under
+`s` to the product of the two phases at scale `2^cnv_offset`, up to the explicit gadget error (`relinErr`: `Σ digit·E − dropped − β^S·head`), the
+rescaled roundings of the `cols(cols+1)/2 + cols` normalisations, and multiples of the torus moduli.  Head-room of the relinearisation DERIVED
+(`relin_headroom` with tensor digits `≤ 3·(2^bt − 1)`): ONE decidable inequality `Core.prodAdmissible`.  This is the statement CKKS `mul` cites. -/
+theorem glwe_mul_decrypts (big128 : Bool) (N rsT off b : Nat) (a bb : List Col) (aK bK : Nat) (res0T : List Col)
+    (g : GGLWE) (rb rs : Nat) (res0 : List Col) (sk skG : List Poly) (σ : ℕ → Ks.R N) (E : ℕ → ℕ → Ks.R N)
+    (H Dm : Int) (sa sb cols : Nat) (hN : 0 < N)
+    -- the two operands and the tensor
+    (hcols : a.length = cols) (hcb : bb.length = cols) (hc1 : 1 ≤ cols)
+    (ha : ∀ x ∈ a, x.length = sa ∧ ∀ l ∈ x, l.length = N) (hbb : ∀ x ∈ bb, x.length = sb ∧ ∀ l ∈ x, l.length = N)
+    (hsa : 1 ≤ sa) (hsb : 1 ≤ sb) (hhi : (cnvOffsetSplit b off).1 ≤ sa + sb - 1)
+    (hr0 : res0T.length = (cols + 1) * cols / 2)
+    (hbt1 : 1 ≤ g.base2k) (hbt : g.base2k ≤ 61) (hb1 : 1 ≤ b) (hb : b ≤ 62) (hH0 : 0 ≤ H) (hH : H + 8 ≤ 2 ^ (bitsOf big128 - 2))
+    (haccD : ∀ i, i < cols → ∀ l ∈ Hal.cnvApplyCol N (limbBoundWithOffset (sa + sb - (cnvOffsetSplit b off).1) rsT g.base2k b (cnvOffsetSplit b off).2)
+        (cnvOffsetSplit b off).1 ((prepAll N (msbMaskBottomLimb b aK) a).getD i []) ((prepAll N (msbMaskBottomLimb b bK) bb).getD i []),
+        ∀ v ∈ l, |v| ≤ H)
+    (haccP : ∀ i j, i < j → j < cols → ∀ l ∈ Hal.cnvApplyCol N (limbBoundWithOffset (sa + sb - (cnvOffsetSplit b off).1) rsT g.base2k b (cnvOffsetSplit b off).2)
+        (cnvOffsetSplit b off).1
+        (Hal.colAdd N ((prepAll N (msbMaskBottomLimb b aK) a).getD i []) ((prepAll N (msbMaskBottomLimb b aK) a).getD j []))
+        (Hal.colAdd N ((prepAll N (msbMaskBottomLimb b bK) bb).getD i []) ((prepAll N (msbMaskBottomLimb b bK) bb).getD j [])),
+        ∀ v ∈ l, |v| ≤ H)
+    -- the grouped secret of `glwe_tensor_decrypt`: `sk` then the secret tensor
+    (hskl : skG.length = (cols + 1) * cols / 2 - 1) (hσ0 : σ 0 = 1)
+    (hτ : ∀ i j, i ≤ j → j < cols → 0 < cix cols i j → Ks.ι N (skG.getD (cix cols i j - 1) []) = σ i * σ j)
+    (hsk : cols - 1 ≤ sk.length) (hskG1 : ∀ k, k < cols - 1 → skG.getD k [] = sk.getD k [])
+    -- the tensor key
+    (hco : g.colsOut = cols) (hci : g.colsOut + g.colsIn = (cols + 1) * cols / 2)
+    (hrb1 : 1 ≤ rb) (hrb : rb ≤ 62) (hDm : 0 ≤ Dm)
+    (hadm : prodAdmissible (bitsOf big128) g.dsize g.colsIn g.dnum N (3 * (2 ^ g.base2k - 1)) Dm (3 * (2 ^ g.base2k - 1)))
+    (hgd : ∀ row ∈ g.cells, ∀ c ∈ row, ∀ l ∈ c, ∀ x ∈ l, |x| ≤ Dm)
+    (hd : 1 ≤ g.dsize) (hn : g.n = N) (h0 : shapeOk g.n g.colsOut g.size res0 = true) (hM : ∀ j q, (g.toPMat.entry j q).length = N)
+    (hS : g.dnum * g.dsize ≤ g.size) (hcov1 : rsT ≤ g.size) (hcov2 : rsT ≤ g.dnum * g.dsize)
+    (hkey : ∀ i, i < g.colsIn → ∀ r, r < g.dnum →
+      Gadget.val ((2 : Ks.R N) ^ g.base2k) g.size (Ks.keyPhase N sk g.toPMat i r)
+        = 1 * Ks.ι N (skG.getD (cols - 1 + i) []) * ((2 : Ks.R N) ^ g.base2k) ^ (g.size - (r + 1) * g.dsize) + E i r) :
+    ∃ T res, tensorApply false big128 N g.base2k rsT off b a aK bb bK res0T = some T ∧
+      relinearize big128 N rb rs T g.base2k g g.size res0 = some res ∧ C02L.GWF N (Ks.mkCt rb N res) ∧
+      (∀ c ∈ res, ∀ l ∈ c, ∀ x ∈ l, |x| ≤ 2 ^ rb - 1) ∧
+      TensorSpec N g.base2k rsT off b a bb aK bK skG σ sa sb cols T ∧
+      ∃ En Q : Poly, En.length = N ∧ Q.length = N ∧
+        normInf En ≤ (1 + C02L.snorm (min (cols - 1) sk.length) sk) * C02.normTol (rb * rs) (g.base2k * g.size) ∧
+        (2 : Ks.R N) ^ (g.base2k * g.size) * Ks.ι N (C02L.valP rb N (Core.Ops.phase sk (Ks.mkCt rb N res)))
+          = (2 : Ks.R N) ^ (rb * rs) *
+              (((2 : Ks.R N) ^ g.base2k) ^ (g.size - rsT) * Ks.ι N (C02L.valP g.base2k N (Core.Ops.phase skG (Ks.mkCt g.base2k N T)))
+                + relinErr N sk (relinInput N T g) g ((2 : Ks.R N) ^ g.base2k) E)
+            + Ks.ι N En + (2 : Ks.R N) ^ (rb * rs + g.base2k * g.size) * Ks.ι N Q := by
+  obtain ⟨T, hT, hspec⟩ := tensor_apply_decrypts big128 N g.base2k rsT off b a bb aK bK res0T skG σ H sa sb cols hN hcols hcb hc1 ha hbb hsa hsb hhi
+    hr0 hbt1 hbt hb1 hb hH0 hH haccD haccP hskl hσ0 hτ
+  obtain ⟨hTlen, hTwf, hTdig, _⟩ := hspec
+  have hTlen' : T.length = g.colsOut + g.colsIn := by rw [hTlen, hci]
+  have hT0 : 0 < T.length := by rw [hTlen', hco]; omega
+  have hri := relinInput_eq N T g rsT hbt1 hT0 hTlen' hTwf
+  have hcolT : ∀ k, k < T.length → C02L.ColWF N rsT (T.getD k []) ∧ ∀ l ∈ T.getD k [], ∀ v ∈ l, |v| ≤ 3 * (2 ^ g.base2k - 1) := by
+    intro k hk
+    rw [List.getD_eq_getElem?_getD, List.getElem?_eq_getElem hk]
+    exact ⟨hTwf _ (List.getElem_mem hk), hTdig _ (List.getElem_mem hk)⟩
+  have hY0 : (0 : Int) ≤ 3 * (2 ^ g.base2k - 1) := by
+    have : (1 : Int) ≤ 2 ^ g.base2k := one_le_pow₀ (by norm_num)
+    linarith
+  -- shape and digits of the pair columns
+  have hriwf : ∀ c ∈ relinInput N T g, C02L.ColWF N rsT c := by
+    rw [hri]; intro c hc
+    obtain ⟨i, hi, rfl⟩ := List.mem_map.mp hc
+    exact (hcolT _ (by have := List.mem_range.mp hi; omega)).1
+  have hrib : ∀ c ∈ relinInput N T g, ∀ l ∈ c, ∀ x ∈ l, |x| ≤ 3 * (2 ^ g.base2k - 1) := by
+    rw [hri]; intro c hc
+    obtain ⟨i, hi, rfl⟩ := List.mem_map.mp hc
+    exact (hcolT _ (by have := List.mem_range.mp hi; omega)).2
+  have hrilen : (relinInput N T g).length = g.colsIn := by simp [relinInput]
+  have hrish : shapeOk g.n g.colsIn ((relinInput N T g).getD 0 []).length (relinInput N T g) = true := by
+    rw [hn]
+    by_cases hci0 : g.colsIn = 0
+    · have : relinInput N T g = [] := by unfold relinInput; rw [hci0]; rfl
+      rw [this, hci0]; rfl
+    · have h0' : 0 < (relinInput N T g).length := by rw [hrilen]; omega
+      have e : ((relinInput N T g).getD 0 []).length = rsT := by
+        rw [List.getD_eq_getElem?_getD, List.getElem?_eq_getElem h0']; exact (hriwf _ (List.getElem_mem h0')).1
+      rw [e]
+      exact shapeOk_of_wf N g.colsIn rsT _ hrilen hriwf
+  have hPb := relin_headroom N (relinInput N T g) g res0 (3 * (2 ^ g.base2k - 1)) Dm hY0 hDm hd hn hrish h0 hrib hgd
+  unfold prodAdmissible at hadm
+  obtain ⟨res, hres, hgwf, hdig, En, Q, hE, hQ, hnm, heq⟩ := relin_decrypts big128 rb rs T g res0 sk
+    (prodBound g.dsize g.colsIn g.dnum N (3 * (2 ^ g.base2k - 1)) Dm) (3 * (2 ^ g.base2k - 1))
+    hrb1 hrb hbt1 (by omega) (prodBound_nonneg _ _ _ _ _ _ hY0 hDm) hY0 hadm hPb
+    (fun j hj => (hcolT j (by omega)).1.2) hTdig (fun i => Ks.ι N (skG.getD (cols - 1 + i) [])) E hd hN hn (by omega) h0 hM hS hkey
+  refine ⟨T, res, hT, hres, hgwf, hdig, ⟨hTlen, hTwf, hTdig, ‹_›⟩, En, Q, hE, hQ, by rw [← hco]; exact hnm, ?_⟩
+  have hcv := relin_covered_value N hN T g sk skG (fun i => Ks.ι N (skG.getD (cols - 1 + i) [])) rsT hTlen' (by omega) hTwf hbt1 hd hcov1 hcov2
+    (by rw [hco]; exact hsk) (by rw [hskl, hTlen]) (by rw [hco]; exact hskG1) (fun p _ => by rw [hco])
+  unfold relinErr
+  rw [← hcv]
+  rw [heq]
+  ring
+
+/-- rank 1, one-pair tensor key `exTsk` (`dsize = 2`), grouped secret `[s, s⋆s]`, every hypothesis discharged -/
+example : ∃ T res, tensorApply false false 1 exTsk.base2k 2 4 4 [[[3], [0]], [[1], [0]]] 8 [[[2], [0]], [[1], [0]]] 8 (zeroCols 1 3 2) = some T ∧
+    relinearize false 1 4 3 T exTsk.base2k exTsk exTsk.size (zeroCols 1 2 3) = some res ∧ C02L.GWF 1 (Ks.mkCt 4 1 res) := by
+  obtain ⟨T, res, h1, h2, h3, _⟩ := glwe_mul_decrypts false 1 2 4 4 [[[3], [0]], [[1], [0]]] [[[2], [0]], [[1], [0]]] 8 8 (zeroCols 1 3 2)
+    exTsk 4 3 (zeroCols 1 2 3) [[2]] [[2], Hal.negMul [2] [2]] (fun i => if i = 0 then 1 else Ks.ι 1 [2])
+    (fun i r => Gadget.val ((2 : Ks.R 1) ^ exTsk.base2k) exTsk.size (Ks.keyPhase 1 [[2]] exTsk.toPMat i r)
+      - 1 * Ks.ι 1 (([[2], Hal.negMul [2] [2]] : List Poly).getD (2 - 1 + i) []) * ((2 : Ks.R 1) ^ exTsk.base2k) ^ (exTsk.size - (r + 1) * exTsk.dsize))
+    (2 ^ 61) 1 2 2 2 (by decide) rfl rfl (by decide)
+    (by decide) (by decide) (by decide) (by decide) (by decide) (by decide) (by decide) (by decide) (by decide) (by decide) (by decide) (by decide)
+    (by decide)
+    (by
+      intro i j hij hj
+      have h01 : i = 0 ∧ j = 1 := by omega
+      obtain ⟨rfl, rfl⟩ := h01
+      decide)
+    (by decide) rfl
+    (by
+      intro i j hij hj hpos
+      have hcases : (i = 0 ∧ j = 1) ∨ (i = 1 ∧ j = 1) := by
+        have hj2 : j < 2 := hj
+        have : ¬ (i = 0 ∧ j = 0) := by
+          rintro ⟨rfl, rfl⟩; simp [cix, colIdx] at hpos
+        omega
+      rcases hcases with ⟨rfl, rfl⟩ | ⟨rfl, rfl⟩
+      · have e : cix 2 0 1 - 1 = 0 := by decide
+        rw [e]; simp
+      · have e : cix 2 1 1 - 1 = 1 := by decide
+        rw [e]
+        show Ks.ι 1 (Hal.negMul [2] [2]) = _
+        rw [Ks.ι_negMul 1 _ _ rfl (by decide)]; simp)
+    (by decide)
+    (by intro k hk; have : k = 0 := by omega
+        subst this; rfl)
+    rfl (by decide) (by decide) (by decide) (by decide) (by decide) (by decide +kernel) (by decide) rfl (by decide)
+    (Ks.entry_length exTsk.toPMat 1 rfl (by decide +kernel)) (by decide) (by decide) (by decide)
+    (by intro i _ r _; exact (add_sub_cancel _ _).symm)
+  exact ⟨T, res, h1, h2, h3⟩
 
 end C05
